@@ -103,10 +103,19 @@ def _run(ctx, e2e):
             p_min = round(float(lo + (hi - lo) * rng.uniform(0.05, 0.3)), 3)
             top = float(hi - (hi - lo) * rng.uniform(0.05, 0.3))
             dp = (top - p_min) / (ntv - 1)
-            args += ["--p-min", repr(p_min), "--delta-p", repr(dp)]
-            if i % 4 == 1:
-                step = int(rng.integers(2, 6))
-                args += ["--delta-p-sample", repr(dp * step)]
+            dp_text = repr(dp)
+            if i % 2:
+                # intervals as people type them: decimal fractions (0.1, 0.25, 0.4 ...), the sampling interval an exact decimal multiple
+                nice = [d_ for d_ in (0.01, 0.02, 0.05, 0.1, 0.2, 0.25, 0.4, 0.5, 0.7, 1.0, 2.0, 2.5, 5.0) if d_ <= dp]
+                if nice:
+                    dp = nice[-1] if rng.random() < 0.5 else nice[int(rng.integers(0, len(nice)))]
+                    dp_text = repr(dp)
+            args += ["--p-min", repr(p_min), "--delta-p", dp_text]
+            if i % 4 in (1, 3):
+                step = int(rng.integers(2, 8))
+                from decimal import Decimal
+                sample_text = str(Decimal(dp_text) * step) if i % 2 else repr(dp * step)
+                args += ["--delta-p-sample", sample_text]
         via_sub = (i % 18 == 5)
         try:
             if via_sub:
